@@ -207,6 +207,7 @@ class Check:
             raise ToolError("trace validation of %s crashed (tool error)" % trace_path)
         self.transitions += r.generated
         self.states += r.distinct
+        self.last_trace_prints = r.prints
         # deviations the trace specification followed on purpose (named deviation actions count them in a register)
         for k, v in r.prints:
             if k == "DEVIATION":
